@@ -57,6 +57,8 @@ InitCtx(ev) ==
    io |-> [ik |-> ev.io[1], seed |-> ev.io[2], len |-> ev.io[3]], iom |-> CellsOf(ev.iocells),
    nin |-> IF "nin" \in DOMAIN ev THEN ev.nin ELSE 0, seen |-> <<>>,
    rd |-> <<>>, wr |-> <<>>, pio |-> <<>>, halt |-> ev.h = 1, hc |-> <<0, 0>>,
+   \* which notification handlers the host installed: bit 0 RETN, bit 1 RETI (a missing one counts nothing)
+   hcfg |-> IF "hcfg" \in DOMAIN ev THEN ev.hcfg ELSE 3,
    ovl |-> NoOvl, v |-> 0, u |-> 0, ralt |-> FALSE, tag |-> "", pend |-> PendOf(ev.pend),
    aei |-> FALSE, rslack |-> 0]
 
@@ -80,6 +82,9 @@ MemBad(prev, o, md) ==
 
 Outs(pio) == SelectSeq(pio, LAMBDA e : e[1] = 1)
 
+\* handler notifications the host can see: only those of installed handlers
+HcSeen(prev, d) == <<IF prev.hcfg % 2 = 1 THEN d[1] ELSE 0, IF prev.hcfg \div 2 = 1 THEN d[2] ELSE 0>>
+
 Aspects(prev, o, ev) ==
   LET lr == RegsOf(ev.r)
   IN (IF RegsBad(o, lr) THEN {"regs"} ELSE {})
@@ -91,7 +96,7 @@ Aspects(prev, o, ev) ==
      \cup (IF "bare" \notin DOMAIN ev /\ ~SameBag(o.rd, ev.rd) THEN {"rd"} ELSE {})
      \cup (IF "bare" \notin DOMAIN ev /\ ~SameBag(o.wr, ev.wr) THEN {"wr"} ELSE {})
      \cup (IF o.pio # ev.pio THEN {"pio"} ELSE {})
-     \cup (IF <<o.hc[1] - prev.hc[1], o.hc[2] - prev.hc[2]>> # ev.hc THEN {"hc"} ELSE {})
+     \cup (IF HcSeen(prev, <<o.hc[1] - prev.hc[1], o.hc[2] - prev.hc[2]>>) # ev.hc THEN {"hc"} ELSE {})
      \cup (IF o.pend # PendOf(ev.pend) THEN {"pend"} ELSE {})
 
 \* the outcome that explains the event best (no failed aspect if one exists)
@@ -214,7 +219,7 @@ RunAspects(prev, x, ev) ==
                  \* such traffic, none otherwise (how many lines are logged is not pinned)
                  \/ (ev.warn > 0) # (Len(SelectSeq(ev.pio, LAMBDA e : e[1] = 0 \/ e[2] # 0)) > 0))
            THEN {"console"} ELSE {})
-     \cup (IF <<o.hc[1] - prev.hc[1], o.hc[2] - prev.hc[2]>> # ev.hc THEN {"hc"} ELSE {})
+     \cup (IF HcSeen(prev, <<o.hc[1] - prev.hc[1], o.hc[2] - prev.hc[2]>>) # ev.hc THEN {"hc"} ELSE {})
      \cup (IF o.pend # PendOf(ev.pend) THEN {"pend"} ELSE {})
 
 \* The iteration is done with silent TLC steps (one per Step of the run, the line is
